@@ -16,3 +16,5 @@ PROPERTY = PropertySpec(
     technique='contract-based deductive verification per shape (pyvc + z3); bounded enumeration as stand-in for larger shapes',
     design_ref='DESIGN.md section 10 / C12',
 )
+
+PROPERTY.explanation += ' Scenarios with coinciding labels in the old span (a repeated label addresses its first occurrence, as label access does) are included.'
